@@ -276,6 +276,28 @@ func bindGating(s *Summary) {
 			}
 		}
 	}
+	// the data bound comes SOLELY from the request at hand: whatever an earlier request carried (a long body with something
+	// behind the first document, a long body that is cut off), the next bind sees only its own body
+	for round := 0; round < 30; round++ {
+		for _, media := range []string{"application/json", "text/xml"} {
+			good, ctype := bodyFor(media, bindT{Age: 7, Name: "n", Ok: true, Tags: []string{"t"}})
+			evil, _ := bodyFor(media, bindT{Age: 99, Name: "smuggled", Ok: false, Tags: []string{"z"}})
+			pad := strings.Repeat(" ", 700)
+			for _, earlier := range []string{good + pad + evil, good[:len(good)/2] + pad + evil, pad + "}" + pad + evil} {
+				var ign bindT
+				_, _ = safeBind(func() error { return binding.Auto(mkReq("POST", "/b", earlier, ctype), &ign) })
+				var got bindT
+				err, pan := safeBind(func() error { return binding.Auto(mkReq("POST", "/b", good, ctype), &got) })
+				s.Compared++
+				if pan != nil || err != nil || got.Name != "n" || got.Age != 7 {
+					s.mismatch(map[string]any{"kind": "bind", "aspect": "roundtrip", "what": fmt.Sprintf(
+						"%s: after an earlier request with a %d byte body, a well-formed request was bound to %+v err=%v panic=%v", media, len(earlier), got, err, pan)}, nil)
+					round = 99
+					break
+				}
+			}
+		}
+	}
 	v := bindT{Age: 7, Name: "n", Ok: true, Tags: []string{"t"}}
 	for _, media := range []string{"application/json", "text/xml", "application/x-www-form-urlencoded"} {
 		body, ctype := bodyFor(media, v)
